@@ -39,6 +39,7 @@ type Lemma struct {
 	Uses   []string // lemmas assumed (instantiated universally) while proving
 	Reveal []string // rec functions unfolded with extra fuel
 	Opaque []string
+	Expand []string // non-recursive spec functions replaced by their bodies in this lemma's query, so that the instantiation pass sees the array reads inside them
 	Where  string
 	Axiom  bool
 	Triggers []string
@@ -84,6 +85,7 @@ type Contract struct {
 	MapInvs   []MapInv
 	RevealIn  map[string][]string // obligation-name suffix -> opaque spec functions revealed for that obligation only
 	LocalTypes map[string]string  // local variable name -> required Go type (printed with package names)
+	Skolemize map[string]bool // (lemma functions) callees whose postconditions (forall k. H) ==> C are assumed as H(sk) ==> C
 	CallerEnsures []CallerClause  // postconditions known to callers only (ghost definitions; clauses justified by a lemma function)
 }
 
@@ -117,6 +119,7 @@ type AssertAt struct {
 	Path   []string // "assert after g/f#k": the call of f inside the inlined body of g (lemma functions that inline callees)
 	Bind   string   // "bind after f#k: $name = expr": names a ghost value for later anchors of this function
 	Label  string   // "assert after f#k as NAME: expr": names the assertion
+	Expand []string // "assert after f#k ... expand f, g: expr": these non-recursive spec functions are replaced by their bodies in the query
 	From   []string // "assert after f#k from A, B: expr": proved from the named earlier assertions alone (a smaller query; proving from a subset of the hypotheses is sound)
 }
 
@@ -408,6 +411,13 @@ func (lib *SpecLib) loadFile(path, prefix string) error {
 			} else if cur != nil {
 				cur.Opaque = append(cur.Opaque, names...)
 			}
+		case "expand":
+			names := strings.FieldsFunc(rest, func(r rune) bool { return r == ',' || r == ' ' })
+			if curLemma != nil {
+				curLemma.Expand = append(curLemma.Expand, names...)
+			} else {
+				return bad(fmt.Errorf("'expand' is a lemma directive"))
+			}
 		case "reveal":
 			names := strings.FieldsFunc(rest, func(r rune) bool { return r == ',' || r == ' ' })
 			if curLemma != nil {
@@ -434,6 +444,13 @@ func (lib *SpecLib) loadFile(path, prefix string) error {
 					return bad(err)
 				}
 				cur.Ensures = append(cur.Ensures, c)
+			case "skolemize":
+				if cur.Skolemize == nil {
+					cur.Skolemize = map[string]bool{}
+				}
+				for _, n := range strings.FieldsFunc(rest, func(r rune) bool { return r == ',' || r == ' ' }) {
+					cur.Skolemize[n] = true
+				}
 			case "ghostdef":
 				c, err := clause(rest)
 				if err != nil {
@@ -473,6 +490,11 @@ func (lib *SpecLib) loadFile(path, prefix string) error {
 				loc, ex := strings.TrimSpace(r[:i]), strings.TrimSpace(r[i+1:])
 				label := ""
 				var from []string
+				var expand []string
+				if j := strings.Index(loc, " expand "); j >= 0 {
+					expand = strings.FieldsFunc(loc[j+8:], func(r rune) bool { return r == ',' || r == ' ' })
+					loc = strings.TrimSpace(loc[:j])
+				}
 				if j := strings.Index(loc, " from "); j >= 0 {
 					from = strings.FieldsFunc(loc[j+6:], func(r rune) bool { return r == ',' || r == ' ' })
 					loc = strings.TrimSpace(loc[:j])
@@ -520,7 +542,7 @@ func (lib *SpecLib) loadFile(path, prefix string) error {
 					}
 					cur.Uses = append(cur.Uses, call.Fun)
 				}
-				cur.Asserts = append(cur.Asserts, AssertAt{Callee: loc, Ord: ord, C: c, Lemma: isLemma, Path: path, Label: label, From: from})
+				cur.Asserts = append(cur.Asserts, AssertAt{Callee: loc, Ord: ord, C: c, Lemma: isLemma, Path: path, Label: label, From: from, Expand: expand})
 			case "mapinv":
 				i := strings.Index(rest, ": ")
 				if i < 0 {
@@ -882,4 +904,43 @@ func (lib *SpecLib) need(n string, needed, opaque map[string]bool) {
 	for d := range f.Deps {
 		lib.need(d, needed, opaque)
 	}
+}
+
+
+// expandApps replaces applications of the named non-recursive spec functions by their bodies.
+func (lib *SpecLib) expandApps(t *Term, names map[string]bool) *Term {
+	memo := map[int]*Term{}
+	var rec func(x *Term) *Term
+	rec = func(x *Term) *Term {
+		if len(x.Args) == 0 {
+			return x
+		}
+		if r, ok := memo[x.id]; ok {
+			return r
+		}
+		args := make([]*Term, len(x.Args))
+		ch := false
+		for i, a := range x.Args {
+			args[i] = rec(a)
+			if args[i] != a {
+				ch = true
+			}
+		}
+		r := x
+		if ch {
+			r = rebuild(x, args)
+		}
+		if r.Op == "app" {
+			if f := lib.bySMT(r.Name); f != nil && names[f.Name] && !f.Rec && f.BodyTerm != nil && len(f.ParamVars) == len(r.Args) {
+				m := map[*Term]*Term{}
+				for i, pv := range f.ParamVars {
+					m[pv] = r.Args[i]
+				}
+				r = rec(Subst(f.BodyTerm, m))
+			}
+		}
+		memo[x.id] = r
+		return r
+	}
+	return rec(t)
 }
